@@ -154,6 +154,66 @@ def _step_call(B, d):
     return None
 
 
+_INLINE_F = [None]
+
+
+def set_facts(F):
+    """Facts used to see through calls of local helper functions during evaluation (`fn tagged_addr(&self) -> usize`)."""
+    _INLINE_F[0] = F
+
+
+def subst_args(e, args):
+    if isinstance(e, tuple):
+        if len(e) == 2 and e[0] == "arg" and isinstance(e[1], int):
+            return args[e[1] - 1] if 1 <= e[1] <= len(args) else ("unknown", "arg")
+        return tuple(subst_args(x, args) for x in e)
+    return e
+
+
+def has_unknown(e):
+    if isinstance(e, tuple):
+        if e and e[0] == "unknown":
+            return True
+        return any(has_unknown(x) for x in e)
+    return False
+
+
+def inline_call(F, e, depth=0):
+    """For a call node of a local function whose result is one straight-line expression of its arguments: that expression with the
+    call's arguments substituted; None otherwise."""
+    if F is None or e[0] != "call" or depth > 6:
+        return None
+    b = F.body(e[1])
+    if b is None or b["kind"] not in ("Fn", "AssocFn"):
+        return None
+    from . import cfg
+
+    cache = F.__dict__.setdefault("_symx_ret", {})
+    if e[1] not in cache:
+        cache[e[1]] = None  # recursion guard
+        CB = cfg.Body(b)
+        r = local_expr(F, CB, 0, 0)
+        cache[e[1]] = None if has_unknown(r) else r
+    r = cache[e[1]]
+    if r is None:
+        return None
+    # generic parameters: only identity instantiations (or none) are substituted textually
+    names = [g["name"] for g in b.get("generics", []) if g["kind"] == "type"]
+    gs = list(e[4]) if len(e) > 4 else []
+    if names and gs and len(names) == len(gs) and names != gs:
+        m = dict(zip(names, gs))
+
+        def ren(x):
+            if isinstance(x, tuple):
+                return tuple(ren(y) for y in x)
+            if isinstance(x, str) and x in m:
+                return m[x]
+            return x
+
+        r = ren(r)
+    return subst_args(r, list(e[3]))
+
+
 def strip_casts(e):
     while e[0] == "cast":
         e = e[2]
@@ -203,6 +263,10 @@ def eval_int(e, leaf, bits=64):
         if v is not None:
             return v
         name, args, gs = e[2], e[3], e[4]
+        if _INLINE_F[0] is not None and _INLINE_F[0].body(e[1]) is not None:
+            # a function of the crate: judged by its body, never by its name (a local `fn addr(&self)` is not `<*const T>::addr`)
+            r = inline_call(_INLINE_F[0], e)
+            return eval_int(r, leaf, bits) if r is not None else None
         # byte-granular pointer arithmetic (element type of size 1) and integer helpers
         elem1 = bool(gs) and gs[0] in ("u8", "i8", "()", "core::ffi::c_void") or name.startswith("byte_") or name.startswith("wrapping_byte_")
         if name in ("wrapping_add", "add", "byte_add", "wrapping_byte_add", "wrapping_sub", "sub", "byte_sub", "wrapping_byte_sub", "offset", "byte_offset", "wrapping_offset") and len(args) == 2:
@@ -220,6 +284,9 @@ def eval_int(e, leaf, bits=64):
             return eval_int(args[0], leaf, bits)
         if name == "map_addr":
             return None
+        r = inline_call(_INLINE_F[0], e)
+        if r is not None:
+            return eval_int(r, leaf, bits)
         return None
     return leaf(e)
 
